@@ -18,7 +18,11 @@ LIST = 'dbus/dbus-list.c'
 
 
 class Stuck(Exception):
-    pass
+    """the interpreter cannot follow the code (no verdict)"""
+
+
+class Fault(Exception):
+    """the operation itself goes wrong on this list (a verdict)"""
 
 
 class Machine:
@@ -42,9 +46,9 @@ class Machine:
 
     def load(self, node, field, where):
         if node == 0 or node not in self.heap:
-            raise Stuck('NULL or non-link dereferenced in %s' % where)
+            raise Fault('NULL or non-link dereferenced in %s' % where)
         if node in self.freed:
-            raise Stuck('a freed link is read in %s' % where)
+            raise Fault('a freed link is read in %s' % where)
         return self.heap[node][field]
 
     def call(self, name, args, depth):
@@ -52,9 +56,9 @@ class Machine:
             return self.alloc(args[0])
         if name in ('free_link', '_dbus_list_free_link'):
             if args[0] in self.freed:
-                raise Stuck('a link is freed twice')
+                raise Fault('a link is freed twice')
             if args[0] == 0:
-                raise Stuck('free_link (NULL)')
+                raise Fault('free_link (NULL)')
             self.freed.add(args[0])
             return 0
         if name in ('_dbus_real_assert', '_dbus_verbose_real', '_dbus_warn_check_failed'):
@@ -141,9 +145,9 @@ class Machine:
             if k == 'member' and lhs['field'] in ('next', 'prev', 'data'):
                 n = ev(lhs['base'])
                 if n == 0 or n not in self.heap:
-                    raise Stuck('%s: store through NULL (%s)' % (fn.name, estr(lhs)))
+                    raise Fault('%s: store through NULL (%s)' % (fn.name, estr(lhs)))
                 if n in self.freed:
-                    raise Stuck('%s: a freed link is written (%s)' % (fn.name, estr(lhs)))
+                    raise Fault('%s: a freed link is written (%s)' % (fn.name, estr(lhs)))
                 self.heap[n][lhs['field']] = val
                 return
             raise Stuck('%s: store to %s' % (fn.name, estr(lhs)))
@@ -151,7 +155,7 @@ class Machine:
         while True:
             self.steps += 1
             if self.steps > 4000:
-                raise Stuck('%s does not come to an end on this list' % fn.name)
+                raise Fault('%s does not come to an end on this list' % fn.name)
             blk = fn.blocks[b]
             for e in blk['events']:
                 kind = e['ev']
@@ -202,18 +206,18 @@ def ring_of(m, head):
     n = head
     for _ in range(12):
         if n == 0 or n not in m.heap:
-            raise Stuck('the list runs into NULL after %s' % seq)
+            raise Fault('the list runs into NULL after %s' % seq)
         seq.append(n)
         n = m.heap[n]['next']
         if n == head:
             break
     else:
-        raise Stuck('the list does not close')
+        raise Fault('the list does not close')
     for i, x in enumerate(seq):
         if m.heap[x]['prev'] != seq[i - 1]:
-            raise Stuck('prev of %s is %s, expected %s' % (x, m.heap[x]['prev'], seq[i - 1]))
+            raise Fault('prev of %s is %s, expected %s' % (x, m.heap[x]['prev'], seq[i - 1]))
         if x in m.freed:
-            raise Stuck('the freed link %s is still in the list' % x)
+            raise Fault('the freed link %s is still in the list' % x)
     return seq
 
 
@@ -292,7 +296,7 @@ def check(prog, r):
         if len(fn.params) != 1 + len(kinds):
             raise AnalysisBroken('%s: expected %d parameters' % (name, 1 + len(kinds)))
         cases = 0
-        bad = None
+        bad = stuck = None
         for datas in DATA_PATTERNS:
             nodes, _ = build(datas)
             combos = [[]]
@@ -313,8 +317,12 @@ def check(prog, r):
                     try:
                         ret = m.run(fn, [('headp', 'L')] + args)
                         seq = ring_of(m, m.heads['L'])
-                    except Stuck as e:
+                    except Fault as e:
+                        cases += 1
                         bad = bad or '%s: %s' % (what, e)
+                        continue
+                    except Stuck as e:
+                        stuck = stuck or '%s: %s' % (what, e)
                         continue
                     cases += 1
                     got = [(x, m.heap[x]['data']) for x in seq]
@@ -331,8 +339,8 @@ def check(prog, r):
                         if m.heap[x]['next'] != 0 or m.heap[x]['prev'] != 0:
                             bad = bad or '%s hands out the link %s still pointing into the list' % (what, x)
         key = '%s:does-what-it-says' % name
-        if cases < 3:
-            raise AnalysisBroken('%s: only %d cases could be interpreted (%s)' % (name, cases, bad))
+        if cases < 3 or stuck:
+            raise AnalysisBroken('%s: %d cases interpreted; the interpreter could not follow: %s' % (name, cases, stuck))
         total += cases
         if bad:
             r.violation(key, fn.name, LIST, fn.line, bad)
